@@ -74,6 +74,12 @@ def rule_funnel(ctx, rep):
                 continue
             hn, trait_ = _owner_handle(F, b)
             ik = "%s/%s" % (b["key"], cls)
+            if cls == "atomic_cas":
+                from .. import atomics as _at
+
+                # an increment by compare-and-swap between constants is an increment (a failed swap changes nothing);
+                # anything else the algebra cannot account for
+                cls = "atomic_add" if _at.cas_increment(t) is not None else "atomic_other"
             allowed = ("Arc", "UniqueArc") if cls == "atomic_new" else ("Arc",)
             if cls == "atomic_other":
                 rep.bad("R-FUNNEL", ik, "the count word is accessed by something other than new/fetch_add/fetch_sub/load (%s): the balance algebra cannot account for it" % (t["resolved"]["def"]), F.loc(b, t["span"]), tag)
